@@ -5,7 +5,7 @@ shows that it never interferes:
 
   * `LE x y`  (`x = err "fuel" ∨ x = y`) and `decode_mono`, `skip_mono` …: more fuel never changes a result other than
     turning an `err "fuel"` into the real outcome;
-  * `depth ty` and `decode_ne_fuel`: `depth ty + 2 * b.length + 2 ≤ fuel → decode p strict fuel ty b cur ≠ err "fuel"`
+  * `depth ty` and `decode_ne_fuel`: `depth ty + 2 * b.length + 2 ≤ fuel → decode p strict d fuel ty b cur ≠ err "fuel"`
     (`skip_ne_fuel`: `2 * b.length + 3 ≤ fuel`), for EVERY input: each loop iteration and each nesting level of the
     data consumes at least one byte, so the work is bounded by the input length — absurd announced element counts
     (2^31 - 1 elements in a 3-byte input) included;
@@ -50,14 +50,14 @@ macro "le_step" : tactic => `(tactic| first
   | apply LE.bind | apply LE.dont | apply LE.wrapE | apply LE.ite | (intro _; try dsimp only))
 
 theorem skip_mono_all (p : Proto) : ∀ f f', f ≤ f' →
-    (∀ t b, LE (skip p f t b) (skip p f' t b)) ∧ (∀ t n b, LE (skipN p f t n b) (skipN p f' t n b)) ∧
-    (∀ kt vt n b, LE (skipPairs p f kt vt n b) (skipPairs p f' kt vt n b)) ∧
-    (∀ b last num, LE (skipStruct p f b last num) (skipStruct p f' b last num)) := by
+    (∀ d t b, LE (skip p d f t b) (skip p d f' t b)) ∧ (∀ d t n b, LE (skipN p d f t n b) (skipN p d f' t n b)) ∧
+    (∀ d kt vt n b, LE (skipPairs p d f kt vt n b) (skipPairs p d f' kt vt n b)) ∧
+    (∀ d b last num, LE (skipStruct p d f b last num) (skipStruct p d f' b last num)) := by
   intro f
   induction f with
   | zero =>
     intro f' _
-    refine ⟨fun t b => ?_, fun t n b => ?_, fun kt vt n b => ?_, fun b last num => ?_⟩
+    refine ⟨fun d t b => ?_, fun d t n b => ?_, fun d kt vt n b => ?_, fun d b last num => ?_⟩
     · simp only [skip]; exact LE.fuel _
     · simp only [skipN]; exact LE.fuel _
     · simp only [skipPairs]; exact LE.fuel _
@@ -66,30 +66,37 @@ theorem skip_mono_all (p : Proto) : ∀ f f', f ≤ f' →
     intro f' hf
     obtain ⟨f', rfl⟩ : ∃ g, f' = g + 1 := ⟨f' - 1, by omega⟩
     obtain ⟨ih1, ih2, ih3, ih4⟩ := ih f' (by omega)
-    refine ⟨fun t b => ?_, fun t n b => ?_, fun kt vt n b => ?_, fun b last num => ?_⟩
+    refine ⟨fun d t b => ?_, fun d t n b => ?_, fun d kt vt n b => ?_, fun d b last num => ?_⟩
     · cases t <;> simp only [skip] <;>
-        repeat (first | exact ih2 _ _ _ | exact ih3 _ _ _ _ | exact ih4 _ _ _ | le_step)
-    · cases n <;> simp only [skipN] <;> repeat (first | exact ih1 _ _ | exact ih2 _ _ _ | le_step)
-    · cases n <;> simp only [skipPairs] <;> repeat (first | exact ih1 _ _ | exact ih3 _ _ _ _ | le_step)
+        repeat (first | exact ih2 _ _ _ _ | exact ih3 _ _ _ _ _ | exact ih4 _ _ _ _ | le_step)
+    · cases n <;> simp only [skipN] <;> repeat (first | exact ih1 _ _ _ | exact ih2 _ _ _ _ | le_step)
+    · cases n <;> simp only [skipPairs] <;> repeat (first | exact ih1 _ _ _ | exact ih3 _ _ _ _ _ | le_step)
     · rw [skipStruct_succ, skipStruct_succ]
-      repeat (first | exact ih1 _ _ | exact ih4 _ _ _ | le_step)
+      repeat (first | exact ih1 _ _ _ | exact ih4 _ _ _ _ | le_step)
 
-theorem skip_mono (p : Proto) (f f' : Nat) (h : f ≤ f') (t : TType) (b : Bytes) : LE (skip p f t b) (skip p f' t b) :=
-  (skip_mono_all p f f' h).1 t b
+theorem skip_mono (p : Proto) (f f' : Nat) (h : f ≤ f') (d : Nat) (t : TType) (b : Bytes) :
+    LE (skip p d f t b) (skip p d f' t b) :=
+  (skip_mono_all p f f' h).1 d t b
+theorem skipN_mono (p : Proto) (f f' : Nat) (h : f ≤ f') (d : Nat) (t : TType) (n : Nat) (b : Bytes) :
+    LE (skipN p d f t n b) (skipN p d f' t n b) :=
+  (skip_mono_all p f f' h).2.1 d t n b
+theorem skipPairs_mono (p : Proto) (f f' : Nat) (h : f ≤ f') (d : Nat) (kt vt : TType) (n : Nat) (b : Bytes) :
+    LE (skipPairs p d f kt vt n b) (skipPairs p d f' kt vt n b) :=
+  (skip_mono_all p f f' h).2.2.1 d kt vt n b
 
 theorem decode_mono_all (p : Proto) (strict : Bool) : ∀ f f', f ≤ f' →
-    (∀ ty b cur, LE (decode p strict f ty b cur) (decode p strict f' ty b cur)) ∧
-    (∀ et n b acc, LE (decodeList p strict f et n b acc) (decodeList p strict f' et n b acc)) ∧
-    (∀ kt n b acc, LE (decodeSet p strict f kt n b acc) (decodeSet p strict f' kt n b acc)) ∧
-    (∀ kt vt n b acc, LE (decodeMap p strict f kt vt n b acc) (decodeMap p strict f' kt vt n b acc)) ∧
-    (∀ descs b vs last num seen,
-      LE (decodeStruct p strict f descs b vs last num seen) (decodeStruct p strict f' descs b vs last num seen)) := by
+    (∀ d ty b cur, LE (decode p strict d f ty b cur) (decode p strict d f' ty b cur)) ∧
+    (∀ d et n b acc, LE (decodeList p strict d f et n b acc) (decodeList p strict d f' et n b acc)) ∧
+    (∀ d kt n b acc, LE (decodeSet p strict d f kt n b acc) (decodeSet p strict d f' kt n b acc)) ∧
+    (∀ d kt vt n b acc, LE (decodeMap p strict d f kt vt n b acc) (decodeMap p strict d f' kt vt n b acc)) ∧
+    (∀ d descs b vs last num seen,
+      LE (decodeStruct p strict d f descs b vs last num seen) (decodeStruct p strict d f' descs b vs last num seen)) := by
   intro f
   induction f with
   | zero =>
     intro f' _
-    refine ⟨fun ty b cur => ?_, fun et n b acc => ?_, fun kt n b acc => ?_, fun kt vt n b acc => ?_,
-      fun descs b vs last num seen => ?_⟩
+    refine ⟨fun d ty b cur => ?_, fun d et n b acc => ?_, fun d kt n b acc => ?_, fun d kt vt n b acc => ?_,
+      fun d descs b vs last num seen => ?_⟩
     · simp only [decode]; exact LE.fuel _
     · simp only [decodeList]; exact LE.fuel _
     · simp only [decodeSet]; exact LE.fuel _
@@ -100,24 +107,26 @@ theorem decode_mono_all (p : Proto) (strict : Bool) : ∀ f f', f ≤ f' →
     obtain ⟨f', rfl⟩ : ∃ g, f' = g + 1 := ⟨f' - 1, by omega⟩
     obtain ⟨ih1, ih2, ih3, ih4, ih5⟩ := ih f' (by omega)
     have hsk := skip_mono p f f' (by omega)
-    refine ⟨fun ty b cur => ?_, fun et n b acc => ?_, fun kt n b acc => ?_, fun kt vt n b acc => ?_,
-      fun descs b vs last num seen => ?_⟩
+    have hskN := skipN_mono p f f' (by omega)
+    have hskP := skipPairs_mono p f f' (by omega)
+    refine ⟨fun d ty b cur => ?_, fun d et n b acc => ?_, fun d kt n b acc => ?_, fun d kt vt n b acc => ?_,
+      fun d descs b vs last num seen => ?_⟩
     · cases ty with
       | bool | f32 | f64 | str | bytes | any | arr _ _ => simp only [decode]; exact LE.refl _
       | int k => cases k <;> simp only [decode] <;> exact LE.refl _
       | slice et =>
         rw [decode_slice, decode_slice]
-        repeat (first | exact ih2 _ _ _ _ | le_step)
+        repeat (first | exact ih2 _ _ _ _ _ | exact hskN _ _ _ _ | le_step)
       | map kt vt =>
         simp only [decode]
-        repeat (first | exact ih3 _ _ _ _ | exact ih4 _ _ _ _ _ | le_step)
+        repeat (first | exact ih3 _ _ _ _ _ | exact ih4 _ _ _ _ _ _ | exact hskN _ _ _ _ | exact hskP _ _ _ _ _ | le_step)
       | struct fs =>
-        cases cur <;> simp only [decode] <;> repeat (first | exact ih5 _ _ _ _ _ _ | le_step)
-      | ptr et => cases cur <;> simp only [decode] <;> repeat (first | exact ih1 _ _ _ | le_step)
-      | named nm t' => simp only [decode]; exact ih1 _ _ _
-    · cases n <;> simp only [decodeList] <;> repeat (first | exact ih1 _ _ _ | exact ih2 _ _ _ _ | le_step)
-    · cases n <;> simp only [decodeSet] <;> repeat (first | exact ih1 _ _ _ | exact ih3 _ _ _ _ | le_step)
-    · cases n <;> simp only [decodeMap] <;> repeat (first | exact ih1 _ _ _ | exact ih4 _ _ _ _ _ | le_step)
+        cases cur <;> simp only [decode] <;> repeat (first | exact ih5 _ _ _ _ _ _ _ | le_step)
+      | ptr et => cases cur <;> simp only [decode] <;> repeat (first | exact ih1 _ _ _ _ | le_step)
+      | named nm t' => simp only [decode]; exact ih1 _ _ _ _
+    · cases n <;> simp only [decodeList] <;> repeat (first | exact ih1 _ _ _ _ | exact ih2 _ _ _ _ _ | le_step)
+    · cases n <;> simp only [decodeSet] <;> repeat (first | exact ih1 _ _ _ _ | exact ih3 _ _ _ _ _ | le_step)
+    · cases n <;> simp only [decodeMap] <;> repeat (first | exact ih1 _ _ _ _ | exact ih4 _ _ _ _ _ _ | le_step)
     · rw [decodeStruct_succ, decodeStruct_succ]
       apply LE.bind (LE.refl _)
       intro a
@@ -126,23 +135,23 @@ theorem decode_mono_all (p : Proto) (strict : Bool) : ∀ f f', f ≤ f' →
       cases findById descs (wrap16 (if a.1.delta = true then a.1.id + last else a.1.id)) with
       | none =>
         dsimp only
-        repeat (first | exact hsk _ _ | exact ih5 _ _ _ _ _ _ | le_step)
-      | some d =>
+        repeat (first | exact hsk _ _ _ | exact ih5 _ _ _ _ _ _ _ | le_step)
+      | some fd =>
         dsimp only
         apply LE.ite
-        · repeat (first | exact ih5 _ _ _ _ _ _ | le_step)
+        · repeat (first | exact hsk _ _ _ | exact ih5 _ _ _ _ _ _ _ | le_step)
         · apply LE.ite
-          · exact ih5 _ _ _ _ _ _
+          · exact ih5 _ _ _ _ _ _ _
           · apply LE.bind
             · apply LE.dont
               apply LE.ite
-              · cases baseOf d.ty <;> dsimp only <;> repeat (first | exact ih1 _ _ _ | le_step)
-              · exact ih1 _ _ _
-            · intro _; exact ih5 _ _ _ _ _ _
+              · cases baseOf fd.ty <;> dsimp only <;> repeat (first | exact ih1 _ _ _ _ | le_step)
+              · exact ih1 _ _ _ _
+            · intro _; exact ih5 _ _ _ _ _ _ _
 
-theorem decode_mono (p : Proto) (strict : Bool) (f f' : Nat) (h : f ≤ f') (ty : Ty) (b : Bytes) (cur : Val) :
-    LE (decode p strict f ty b cur) (decode p strict f' ty b cur) :=
-  (decode_mono_all p strict f f' h).1 ty b cur
+theorem decode_mono (p : Proto) (strict : Bool) (d f f' : Nat) (h : f ≤ f') (ty : Ty) (b : Bytes) (cur : Val) :
+    LE (decode p strict d f ty b cur) (decode p strict d f' ty b cur) :=
+  (decode_mono_all p strict f f' h).1 d ty b cur
 
 /-! ## enough fuel -/
 
@@ -295,17 +304,17 @@ theorem nfl_dropN (n : Nat) (r : Bytes) :
   · exact NFL.err _ (by decide)
 
 theorem skip_nf_all (p : Proto) : ∀ F,
-    (∀ t b, 2 * b.length + 3 ≤ F → NFL b.length (skip p F t b)) ∧
-    (∀ t n b, 2 * b.length + 4 ≤ F → NFL (b.length + 1) (skipN p F t n b)) ∧
-    (∀ kt vt n b, 2 * b.length + 4 ≤ F → NFL (b.length + 1) (skipPairs p F kt vt n b)) ∧
-    (∀ b last num, 2 * b.length + 2 ≤ F → NFL b.length (skipStruct p F b last num)) := by
+    (∀ d t b, 2 * b.length + 3 ≤ F → NFL b.length (skip p d F t b)) ∧
+    (∀ d t n b, 2 * b.length + 4 ≤ F → NFL (b.length + 1) (skipN p d F t n b)) ∧
+    (∀ d kt vt n b, 2 * b.length + 4 ≤ F → NFL (b.length + 1) (skipPairs p d F kt vt n b)) ∧
+    (∀ d b last num, 2 * b.length + 2 ≤ F → NFL b.length (skipStruct p d F b last num)) := by
   intro F
   induction F with
   | zero =>
-    refine ⟨fun t b h => ?_, fun t n b h => ?_, fun kt vt n b h => ?_, fun b last num h => ?_⟩ <;> omega
+    refine ⟨fun d t b h => ?_, fun d t n b h => ?_, fun d kt vt n b h => ?_, fun d b last num h => ?_⟩ <;> omega
   | succ F ih =>
     obtain ⟨ih1, ih2, ih3, ih4⟩ := ih
-    refine ⟨fun t b h => ?_, fun t n b h => ?_, fun kt vt n b h => ?_, fun b last num h => ?_⟩
+    refine ⟨fun d t b h => ?_, fun d t n b h => ?_, fun d kt vt n b h => ?_, fun d b last num h => ?_⟩
     · cases t <;> simp only [skip]
       case binary =>
         apply NFL.bind (nfl_rLength p b)
@@ -315,47 +324,49 @@ theorem skip_nf_all (p : Proto) : ∀ F,
         · exact NFL.ok _ _ (by omega)
         · exact (nfl_dropN n r).mono (by omega)
       case list | set =>
+        apply NFL.ite (NFL.err _ (by decide))
         apply NFL.bind (nfl_rList p b)
         intro a r hr
-        exact (ih2 _ _ r (by omega)).mono (by omega)
+        exact (ih2 _ _ _ r (by omega)).mono (by omega)
       case map =>
+        apply NFL.ite (NFL.err _ (by decide))
         apply NFL.bind (nfl_rMap p b)
         intro a r hr
-        exact (ih3 _ _ _ r (by omega)).mono (by omega)
-      case struct => exact ih4 b 0 0 (by omega)
+        exact (ih3 _ _ _ _ r (by omega)).mono (by omega)
+      case struct => exact NFL.ite (NFL.err _ (by decide)) (ih4 _ b 0 0 (by omega))
       all_goals
         first
           | exact NFL.err _ (by decide)
           | (apply NFL.bind (by nfl_prim); intro a r hr; exact NFL.ok _ _ (by omega))
     · cases n <;> simp only [skipN]
       · exact NFL.ok _ _ (by omega)
-      · apply NFL.bind (ih1 _ b (by omega)).dont
+      · apply NFL.bind (ih1 _ _ b (by omega)).dont
         intro a r hr
-        exact (ih2 _ _ r (by omega)).mono (by omega)
+        exact (ih2 _ _ _ r (by omega)).mono (by omega)
     · cases n <;> simp only [skipPairs]
       · exact NFL.ok _ _ (by omega)
-      · apply NFL.bind (ih1 _ b (by omega)).dont
+      · apply NFL.bind (ih1 _ _ b (by omega)).dont
         intro a r hr
         dsimp only
-        apply NFL.bind (ih1 _ r (by omega)).dont
+        apply NFL.bind (ih1 _ _ r (by omega)).dont
         intro a' r' hr'
-        exact (ih3 _ _ _ r' (by omega)).mono (by omega)
+        exact (ih3 _ _ _ _ r' (by omega)).mono (by omega)
     · rw [skipStruct_succ]
       apply NFL.bind (nfl_wrapE_rField p _ b)
       intro h r hr
       dsimp only
       apply NFL.ite
-      · exact NFL.ok _ _ (by omega)
+      · exact NFL.ite (NFL.err _ (by decide)) (NFL.ok _ _ (by omega))
       · apply NFL.bind (n := r.length + 1)
         · apply NFL.dont
           apply NFL.ite
           · exact NFL.ok _ _ (by omega)
-          · exact (ih1 _ r (by omega)).mono (by omega)
+          · exact (ih1 _ _ r (by omega)).mono (by omega)
         · intro a r' hr'
-          exact (ih4 r' _ _ (by omega)).mono (by omega)
+          exact (ih4 _ r' _ _ (by omega)).mono (by omega)
 
-theorem skip_ne_fuel (p : Proto) (F : Nat) (t : TType) (b : Bytes) (h : 2 * b.length + 3 ≤ F) :
-    skip p F t b ≠ .err "fuel" := ((skip_nf_all p F).1 t b h).1
+theorem skip_ne_fuel (p : Proto) (d F : Nat) (t : TType) (b : Bytes) (h : 2 * b.length + 3 ≤ F) :
+    skip p d F t b ≠ .err "fuel" := ((skip_nf_all p F).1 d t b h).1
 
 /-! `depth` / `depthFields` (nesting depth of a Go type) are the model's: `unmarshal` adds `depth t` to its budget -/
 theorem depth_go : (fs : Fields) → (pos : Nat) → ∀ d ∈ fieldDescs.go fs pos, depth d.ty ≤ depthFields fs
@@ -378,23 +389,25 @@ theorem depth_go : (fs : Fields) → (pos : Nat) → ∀ d ∈ fieldDescs.go fs 
 theorem depth_descs (fs : Fields) : ∀ d ∈ fieldDescs fs, depth d.ty ≤ depthFields fs := depth_go fs 0
 
 theorem decode_nf_all (p : Proto) (strict : Bool) : ∀ F,
-    (∀ ty b cur, depth ty + 2 * b.length + 2 ≤ F → NFL b.length (decode p strict F ty b cur)) ∧
-    (∀ et n b acc, depth et + 2 * b.length + 3 ≤ F → NFL (b.length + 1) (decodeList p strict F et n b acc)) ∧
-    (∀ kt n b acc, depth kt + 2 * b.length + 3 ≤ F → NFL (b.length + 1) (decodeSet p strict F kt n b acc)) ∧
-    (∀ kt vt n b acc, depth kt + 2 * b.length + 3 ≤ F → depth vt + 2 * b.length + 3 ≤ F →
-      NFL (b.length + 1) (decodeMap p strict F kt vt n b acc)) ∧
-    (∀ descs b vs last num seen D, (∀ d ∈ descs, depth d.ty ≤ D) → D + 2 * b.length + 2 ≤ F →
-      NFL b.length (decodeStruct p strict F descs b vs last num seen)) := by
+    (∀ d ty b cur, depth ty + 2 * b.length + 2 ≤ F → NFL b.length (decode p strict d F ty b cur)) ∧
+    (∀ d et n b acc, depth et + 2 * b.length + 3 ≤ F → NFL (b.length + 1) (decodeList p strict d F et n b acc)) ∧
+    (∀ d kt n b acc, depth kt + 2 * b.length + 3 ≤ F → NFL (b.length + 1) (decodeSet p strict d F kt n b acc)) ∧
+    (∀ d kt vt n b acc, depth kt + 2 * b.length + 3 ≤ F → depth vt + 2 * b.length + 3 ≤ F →
+      NFL (b.length + 1) (decodeMap p strict d F kt vt n b acc)) ∧
+    (∀ d descs b vs last num seen D, (∀ fd ∈ descs, depth fd.ty ≤ D) → D + 2 * b.length + 2 ≤ F →
+      NFL b.length (decodeStruct p strict d F descs b vs last num seen)) := by
   intro F
   induction F with
   | zero =>
-    refine ⟨fun ty b cur h => ?_, fun et n b acc h => ?_, fun kt n b acc h => ?_, fun kt vt n b acc h _ => ?_,
-      fun descs b vs last num seen D _ h => ?_⟩ <;> omega
+    refine ⟨fun d ty b cur h => ?_, fun d et n b acc h => ?_, fun d kt n b acc h => ?_, fun d kt vt n b acc h _ => ?_,
+      fun d descs b vs last num seen D _ h => ?_⟩ <;> omega
   | succ F ih =>
     obtain ⟨ih1, ih2, ih3, ih4, ih5⟩ := ih
     have hskip := (skip_nf_all p F).1
-    refine ⟨fun ty b cur h => ?_, fun et n b acc h => ?_, fun kt n b acc h => ?_, fun kt vt n b acc hk hv => ?_,
-      fun descs b vs last num seen D hD h => ?_⟩
+    have hskipN := (skip_nf_all p F).2.1
+    have hskipP := (skip_nf_all p F).2.2.1
+    refine ⟨fun d ty b cur h => ?_, fun d et n b acc h => ?_, fun d kt n b acc h => ?_,
+      fun d kt vt n b acc hk hv => ?_, fun d descs b vs last num seen D hD h => ?_⟩
     · cases ty with
       | bool | f32 | f64 | str | bytes =>
         simp only [decode]
@@ -416,8 +429,12 @@ theorem decode_nf_all (p : Proto) (strict : Bool) : ∀ F,
           apply NFL.ite
           · apply NFL.ite
             · exact NFL.err _ (by decide)
-            · exact NFL.ok _ _ (by omega)
-          · exact (ih2 _ _ r _ (by omega)).mono (by omega)
+            · apply NFL.bind (hskipN _ _ _ r (by omega))
+              intro a' r' hr'
+              dsimp only
+              exact NFL.ok _ _ (by omega)
+          · apply NFL.ite (NFL.err _ (by decide))
+            exact (ih2 _ _ _ r _ (by omega)).mono (by omega)
       | map kt vt =>
         simp only [decode]
         simp only [depth] at h
@@ -430,8 +447,12 @@ theorem decode_nf_all (p : Proto) (strict : Bool) : ∀ F,
           · apply NFL.ite
             · apply NFL.ite
               · exact NFL.err _ (by decide)
-              · exact NFL.ok _ _ (by omega)
-            · exact (ih3 _ _ r _ (by omega)).mono (by omega)
+              · apply NFL.bind (hskipN _ _ _ r (by omega))
+                intro a' r' hr'
+                dsimp only
+                exact NFL.ok _ _ (by omega)
+            · apply NFL.ite (NFL.err _ (by decide))
+              exact (ih3 _ _ _ r _ (by omega)).mono (by omega)
         · apply NFL.bind (nfl_rMap p b)
           intro a r hr
           dsimp only
@@ -440,16 +461,24 @@ theorem decode_nf_all (p : Proto) (strict : Bool) : ∀ F,
           · apply NFL.ite
             · apply NFL.ite
               · exact NFL.err _ (by decide)
-              · exact NFL.ok _ _ (by omega)
+              · apply NFL.bind (hskipP _ _ _ _ r (by omega))
+                intro a' r' hr'
+                dsimp only
+                exact NFL.ok _ _ (by omega)
             · apply NFL.ite
               · apply NFL.ite
                 · exact NFL.err _ (by decide)
-                · exact NFL.ok _ _ (by omega)
-              · exact (ih4 _ _ _ r _ (by omega) (by omega)).mono (by omega)
+                · apply NFL.bind (hskipP _ _ _ _ r (by omega))
+                  intro a' r' hr'
+                  dsimp only
+                  exact NFL.ok _ _ (by omega)
+              · apply NFL.ite (NFL.err _ (by decide))
+                exact (ih4 _ _ _ _ r _ (by omega) (by omega)).mono (by omega)
       | struct fs =>
         simp only [depth] at h
-        cases cur <;> simp only [decode] <;> (try exact NFL.err _ (by decide))
-        apply NFL.bind (ih5 _ b _ _ _ _ (depthFields fs) (depth_descs fs) (by omega))
+        cases cur <;> simp only [decode] <;> apply NFL.ite (NFL.err _ (by decide)) <;>
+          (try exact NFL.err _ (by decide))
+        apply NFL.bind (ih5 _ _ b _ _ _ _ (depthFields fs) (depth_descs fs) (by omega))
         intro a r hr
         dsimp only
         apply NFL.ite
@@ -458,38 +487,38 @@ theorem decode_nf_all (p : Proto) (strict : Bool) : ∀ F,
       | ptr et =>
         simp only [depth] at h
         cases cur <;> simp only [decode] <;>
-          (apply NFL.bind (ih1 _ b _ (by omega)); intro a r hr; exact NFL.ok _ _ (by omega))
+          (apply NFL.bind (ih1 _ _ b _ (by omega)); intro a r hr; exact NFL.ok _ _ (by omega))
       | named nm t' =>
         simp only [depth] at h
         simp only [decode]
-        exact ih1 _ b _ (by omega)
+        exact ih1 _ _ b _ (by omega)
     · cases n <;> simp only [decodeList]
       · exact NFL.ok _ _ (by omega)
-      · apply NFL.bind (ih1 _ b _ (by omega)).dont
+      · apply NFL.bind (ih1 _ _ b _ (by omega)).dont
         intro a r hr
-        exact (ih2 _ _ r _ (by omega)).mono (by omega)
+        exact (ih2 _ _ _ r _ (by omega)).mono (by omega)
     · cases n <;> simp only [decodeSet]
       · exact NFL.ok _ _ (by omega)
-      · apply NFL.bind (ih1 _ b _ (by omega)).dont
+      · apply NFL.bind (ih1 _ _ b _ (by omega)).dont
         intro a r hr
-        exact (ih3 _ _ r _ (by omega)).mono (by omega)
+        exact (ih3 _ _ _ r _ (by omega)).mono (by omega)
     · cases n <;> simp only [decodeMap]
       · exact NFL.ok _ _ (by omega)
-      · apply NFL.bind (ih1 _ b _ (by omega)).dont
+      · apply NFL.bind (ih1 _ _ b _ (by omega)).dont
         intro a r hr
         dsimp only
-        apply NFL.bind (ih1 _ r _ (by omega)).dont
+        apply NFL.bind (ih1 _ _ r _ (by omega)).dont
         intro a' r' hr'
-        exact (ih4 _ _ _ r' _ (by omega) (by omega)).mono (by omega)
+        exact (ih4 _ _ _ _ r' _ (by omega) (by omega)).mono (by omega)
     · rw [decodeStruct_succ]
       apply NFL.bind (nfl_wrapE_rField p _ b)
       intro hd r hr
       dsimp only
       apply NFL.ite
-      · exact NFL.ok _ _ (by omega)
+      · exact NFL.ite (NFL.err _ (by decide)) (NFL.ok _ _ (by omega))
       · have next : ∀ r' vs' id seen', r'.length ≤ r.length →
-            NFL b.length (decodeStruct p strict F descs r' vs' id (num + 1) seen') :=
-          fun r' vs' id seen' hr' => (ih5 descs r' vs' id (num + 1) seen' D hD (by omega)).mono (by omega)
+            NFL b.length (decodeStruct p strict d F descs r' vs' id (num + 1) seen') :=
+          fun r' vs' id seen' hr' => (ih5 d descs r' vs' id (num + 1) seen' D hD (by omega)).mono (by omega)
         cases hfd : findById descs (wrap16 (if hd.delta = true then hd.id + last else hd.id)) with
         | none =>
           dsimp only
@@ -497,38 +526,44 @@ theorem decode_nf_all (p : Proto) (strict : Bool) : ∀ F,
           · apply NFL.dont
             apply NFL.ite
             · exact NFL.ok _ _ (by omega)
-            · exact (hskip _ r (by omega)).mono (by omega)
+            · exact (hskip _ _ r (by omega)).mono (by omega)
           · intro a r' hr'
             exact next r' _ _ _ (by omega)
-        | some d =>
-          have hdd : depth d.ty ≤ D := hD d (findById_mem _ _ _ hfd)
+        | some fd =>
+          have hdd : depth fd.ty ≤ D := hD fd (findById_mem _ _ _ hfd)
           dsimp only
           apply NFL.ite
           · apply NFL.ite
             · exact NFL.err _ (by decide)
-            · exact next r _ _ _ (by omega)
+            · apply NFL.bind (n := r.length + 1)
+              · apply NFL.dont
+                apply NFL.ite
+                · exact NFL.ok _ _ (by omega)
+                · exact (hskip _ _ r (by omega)).mono (by omega)
+              · intro a r' hr'
+                exact next r' _ _ _ (by omega)
           · apply NFL.ite
             · exact next r _ _ _ (by omega)
             · apply NFL.bind (n := r.length)
               · apply NFL.dont
                 apply NFL.ite
-                · cases baseOf d.ty <;> dsimp only <;>
+                · cases baseOf fd.ty <;> dsimp only <;>
                     first
-                      | exact ih1 _ r _ (by omega)
+                      | exact ih1 _ _ r _ (by omega)
                       | (apply NFL.bind (nfl_rI32 p r); intro a r' hr'; exact NFL.ok _ _ (by omega))
-                · exact ih1 _ r _ (by omega)
+                · exact ih1 _ _ r _ (by omega)
               · intro a r' hr'
                 exact next r' _ _ _ (by omega)
 
-theorem decode_ne_fuel (p : Proto) (strict : Bool) (F : Nat) (ty : Ty) (b : Bytes) (cur : Val)
-    (h : depth ty + 2 * b.length + 2 ≤ F) : decode p strict F ty b cur ≠ .err "fuel" :=
-  ((decode_nf_all p strict F).1 ty b cur h).1
+theorem decode_ne_fuel (p : Proto) (strict : Bool) (d F : Nat) (ty : Ty) (b : Bytes) (cur : Val)
+    (h : depth ty + 2 * b.length + 2 ≤ F) : decode p strict d F ty b cur ≠ .err "fuel" :=
+  ((decode_nf_all p strict F).1 d ty b cur h).1
 
 theorem unmarshal_ne_fuel (p : Proto) (strict : Bool) (ty : Ty) (b : Bytes) :
     unmarshal p strict ty b ≠ .err "fuel" := by
-  have := decode_ne_fuel p strict (4 * b.length + 64 + depth ty) ty b (zeroOf ty) (by omega)
+  have := decode_ne_fuel p strict 0 (4 * b.length + 64 + depth ty) ty b (zeroOf ty) (by omega)
   unfold unmarshal
-  cases hd : decode p strict (4 * b.length + 64 + depth ty) ty b (zeroOf ty) with
+  cases hd : decode p strict 0 (4 * b.length + 64 + depth ty) ty b (zeroOf ty) with
   | ok vr => dsimp only; split <;> simp
   | err e => rw [hd] at this; simpa using this
   | panic e => simp
